@@ -77,7 +77,7 @@ Proof. exact select_unique. Qed.
    (input 2, behind a nested guard on P: (?= P) 'b' | (?= !P) 'c'), alternative 9 restricted to bodies starting
    with 'c' or 'd': on "b.." 7 is selected, on "a.." 8, on "c.." 9, on "d.." the singleton 9. *)
 Example C08_runtime_examples :
-  let defs := [mkP 1 (-1) [[0]; [1]] []; mkP 2 1 [[1]] [[2]]] in
+  let defs := [mkP 1 [([], [[0]; [1]])]; mkP 2 [([(1, false)], [[1]]); ([(1, true)], [[2]])]] in
   let alts := [mkAlt (mkLA 7 [(1, false); (2, false)]) [0; 1; 2; 3]; mkAlt (mkLA 8 [(1, false); (2, true)]) [0; 1; 2; 3];
                mkAlt (mkLA 9 [(1, true)]) [2; 3]] in
   select_on 4 defs alts [1; 0; 100] = SelOne 7 /\ select_on 4 defs alts [0; 0; 100] = SelOne 8 /\
